@@ -23,7 +23,7 @@ open Pixman.Model.Extent
 /-! ## the flag word of one image -/
 
 theorem is_opaque_flag (i : Img) :
-    i.flags.testBit 13 = (typeEff i.cr i.props (affineFlag i.props) 13 && !killed i.props i.amFormat) := by
+    i.flags.testBit 13 = (typeEff i.cr i.props 13 && !killed i.props i.amFormat) := by
   unfold Img.flags
   rw [flags_tb _ _ _ 13 (by unfold Tracked; decide) (by decide)]
   simp [closed, kill]
@@ -90,24 +90,27 @@ example : (Img.flags ⟨{ kind := .bits, format := 0x20020888, width := 4, heigh
 example : (Img.flags ⟨{ kind := .bits, format := 0x20020888, width := 4, height := 4 }, { repeat_ := 0 }, none⟩).testBit 13 = false := by decide
 example : (Img.flags ⟨{ kind := .bits, format := 0x20028888, width := 4, height := 4 }, { repeat_ := 1 }, none⟩).testBit 13 = false := by decide
 
-/-- a gradient is flagged opaque only when every stop has alpha 0xffff, a repeat mode is set, it is not a radial
-gradient with `a ≥ 0` (part of the plane without colour) and — radial gradients only, a7be4c7 — its transform is affine
-(under a projective transform `radial_get_scanline` clears a pixel whose homogeneous coordinate is 0).
+/-- a gradient is flagged opaque only when it is linear or conical (6d3452b: a radial gradient is NEVER reported
+opaque — the floating-point root selection of `radial_get_scanline` can lose the root where the radius is 0, and a
+projective pixel with homogeneous coordinate 0 is cleared), every stop has alpha 0xffff and a repeat mode is set.
 (`_partial` kept in the name for the obligation lists: what the renderers then paint is `Props/C09Gradient`.) -/
 theorem gradient_flag_sound_partial (i : Img) (hk : i.cr.kind ≠ .solid ∧ i.cr.kind ≠ .bits) (h : i.flags.testBit 13 = true) :
-    (∀ s ∈ i.cr.stops, s.c.a = 0xffff) ∧ i.props.repeat_ ≠ PIXMAN_REPEAT_NONE ∧ ¬ (i.cr.kind = .radial ∧ i.cr.radialA ≥ 0) ∧
-    (i.cr.kind = .radial → affineFlag i.props = true) := by
+    (∀ s ∈ i.cr.stops, s.c.a = 0xffff) ∧ i.props.repeat_ ≠ PIXMAN_REPEAT_NONE ∧ i.cr.kind ≠ .radial := by
   rw [is_opaque_flag] at h
   cases hq : i.cr.kind <;> simp [typeEff, gradOpaque, hq] at h hk ⊢ <;> (try exact absurd rfl hk.1) <;> (try exact absurd rfl hk.2)
-  all_goals first
-    | exact ⟨h.1.2, h.1.1⟩
-    | exact ⟨h.1.2, h.1.1.2, h.1.1.1.1, h.1.1.1.2⟩
+  all_goals exact ⟨h.1.2, h.1.1⟩
+
+/-- 6d3452b: a radial gradient is never flagged opaque, whatever its circles, stops, repeat mode and transform -/
+theorem radial_never_flagged (i : Img) (hk : i.cr.kind = .radial) : i.flags.testBit 13 = false := by
+  cases hb : i.flags.testBit 13 with
+  | false => rfl
+  | true => exact absurd hk (gradient_flag_sound_partial i ⟨by rw [hk]; decide, by rw [hk]; decide⟩ hb).2.2
 example : (Img.flags ⟨{ kind := .linear, stops := [⟨0, ⟨0, 0, 0, 0xffff⟩⟩, ⟨65536, ⟨0, 0, 0, 0xffff⟩⟩] }, { repeat_ := 2 }, none⟩).testBit 13 = true := by decide
 example : (Img.flags ⟨{ kind := .linear, stops := [⟨0, ⟨0, 0, 0, 0xffff⟩⟩, ⟨65536, ⟨0, 0, 0, 0xfffe⟩⟩] }, { repeat_ := 2 }, none⟩).testBit 13 = false := by decide
-example : (Img.flags ⟨{ kind := .radial, radialA := 0, stops := [⟨0, ⟨0, 0, 0, 0xffff⟩⟩] }, { repeat_ := 2 }, none⟩).testBit 13 = false := by decide
-/-- a7be4c7 (finding C09-F3): a radial gradient with `a < 0`, opaque stops and a repeat mode is flagged under an affine
-transform and NOT under a projective one (the matrix of corpus/opacity/radial-projective-w-zero.txt); a linear one still is -/
-example : (Img.flags ⟨{ kind := .radial, radialA := -1, stops := [⟨0, ⟨0, 0, 0, 0xffff⟩⟩] }, { repeat_ := 3 }, none⟩).testBit 13 = true ∧
+/-- findings C09-F3 (projective, a7be4c7) and the concentric-centre rounding case (6d3452b): a radial gradient with
+`a < 0`, opaque stops and a repeat mode is not flagged, with or without a transform; a linear one under the same
+projective matrix (corpus/opacity/radial-projective-w-zero.txt) still is -/
+example : (Img.flags ⟨{ kind := .radial, radialA := -1, stops := [⟨0, ⟨0, 0, 0, 0xffff⟩⟩] }, { repeat_ := 3 }, none⟩).testBit 13 = false ∧
     (Img.flags ⟨{ kind := .radial, radialA := -1, stops := [⟨0, ⟨0, 0, 0, 0xffff⟩⟩] },
       { repeat_ := 3, transform := some ⟨65536, 0, 0, 0, 65536, 0, -65536, 0, 98304⟩ }, none⟩).testBit 13 = false ∧
     (Img.flags ⟨{ kind := .linear, stops := [⟨0, ⟨0, 0, 0, 0xffff⟩⟩] },
